@@ -32,7 +32,7 @@ import logging.config
 from typing import List
 
 import pathspec
-from confuse import Configuration
+from confuse import Configuration, ConfigTypeError
 from pkg_resources import get_distribution, DistributionNotFound
 
 from .config import config_template, dict_to_settings, Settings
@@ -128,9 +128,18 @@ def main(args: List[str] = tuple(sys.argv[1:])):
 
     settings_obj = dict_to_settings(settings_dict)
 
-    # Concatenate all exclude filters rather than overriding the entire list
-    settings_obj.input.exclude_filters = list(
-        settings["input"]["exclude_filters"].all_contents())
+    # Concatenate all exclude filters rather than overriding the entire list.
+    # Every source has to give a list of strings: a plain string or a mapping would
+    # otherwise be iterated silently (its characters / its keys) instead of being rejected.
+    exclude_filters = []
+    for value, _ in settings["input"]["exclude_filters"].resolve():
+        if value is None:
+            continue
+        if not isinstance(value, (list, tuple)) or not all(isinstance(v, str) for v in value):
+            raise ConfigTypeError(
+                f"input.exclude_filters: must be a list of strings, not {type(value).__name__}")
+        exclude_filters.extend(value)
+    settings_obj.input.exclude_filters = exclude_filters
 
     # Load Python logging configuration from settings
     logging.config.dictConfig(settings_obj.logging.logger_config)
